@@ -422,6 +422,9 @@ func (c *ServerChannel) FinishSession(ctx context.Context) error {
 	// data senders write under sendMu: the farewell must not be written into the middle of their envelope
 	c.sendMu.Lock()
 	err := c.sendSession(ctx, &ses)
+	// nothing may be written behind the farewell: a sender that is queued up on sendMu
+	// finds the session over when its turn comes
+	c.setStateWLock(SessionStateFinished)
 	c.sendMu.Unlock()
 
 	c.setState(SessionStateFinished)
@@ -455,6 +458,9 @@ func (c *ServerChannel) FailSession(ctx context.Context, reason *Reason) error {
 	// data senders write under sendMu: the farewell must not be written into the middle of their envelope
 	c.sendMu.Lock()
 	err := c.sendSession(ctx, &ses)
+	// nothing may be written behind the farewell: a sender that is queued up on sendMu
+	// finds the session over when its turn comes
+	c.setStateWLock(SessionStateFailed)
 	c.sendMu.Unlock()
 
 	c.setState(SessionStateFailed)
